@@ -324,6 +324,11 @@ func c18Inputs(c *core.Ctx, n int) []c18Input {
 			switch r.Intn(3) {
 			case 0:
 				p := filepath.Join(dir, fmt.Sprintf("f%d.yaml", i))
+				if r.Intn(3) == 0 {
+					// a byte order mark (or just its bytes) at the very beginning of the file, before a heading or a
+					// comment line: whatever the callback parser makes of it, the channel parser makes the same
+					text = []string{"\xef\xbb\xbf", "\xef\xbb\xbf# comment\n", "\xef\xbb\xbf\n", "\xff\xfe", "\xef\xbb"}[r.Intn(5)] + text
+				}
 				os.WriteFile(p, []byte(text), 0o644)
 				ins = append(ins, c18Input{class: "file", file: p})
 			case 1:
